@@ -251,12 +251,35 @@ def handle (op : String) (args : List String) (impl : String) : Option Verdict :
   | "msg", [amt, rcp] => some <| Id.run do
     let some a := fromHex amt | return badArgs
     let some r := fromHex rcp | return badArgs
-    let m := s!"{msgAmount a}/{toHexW r}/77/09"
-    -- property: the proposal pays (payload amount / 10^10) to the payload's recipient, unaltered
-    let ok := match impl.splitOn "/" with
+    let m := match msgAmount a with
+      | some x => s!"{x}/{toHexW r}/77/09"
+      | none => "err"
+    -- property: the proposal pays exactly (payload amount / 10^10) to the payload's recipient, unaltered — in particular never
+    -- the low 64 bits of an amount that does not fit; refusing the message (no proposal) is the only other outcome
+    let ok := impl == "err" || (match impl.splitOn "/" with
       | [x, rr, n, rid] => x.toNat? == some (beToNat a / 10 ^ 10) && rr == toHexW r && n == "77" && rid == "09"
-      | _ => false
-    return ⟨m, ok || decide (M ≤ beToNat a / 10 ^ 10), s!"msg:wrap={decide (M ≤ beToNat a / 10 ^ 10)}:exact={decide (beToNat a % 10 ^ 10 = 0)}"⟩
+      | _ => false)
+    return ⟨m, ok, s!"msg:overflow={decide (M ≤ beToNat a / 10 ^ 10)}:exact={decide (beToNat a % 10 ^ 10 = 0)}"⟩
+  | "withdraw", [rate, cid, bridge, msgs, utxos] => some <| Id.run do
+    -- messages `amountBytesHex,recipient,script|x` through the real ERC20MessageHandler, the resulting proposals through rawTx
+    let some i0 := parseInp rate cid bridge "-" utxos | return badArgs
+    let some ms := (items msgs ";").mapM (fun it => match it.splitOn "," with
+      | [a, _, sc] => do
+        let a ← fromHex a
+        let sc ← if sc = "x" then some none else (fromHex sc).map some
+        pure (a, sc)
+      | _ => none) | return badArgs
+    -- the amounts the property speaks about are the messages' amounts / 10^10, whatever the handler made of them
+    let want : List Prp := ms.map fun (a, sc) => ⟨beToNat a / 10 ^ 10, sc⟩
+    match ms.mapM (fun (a, sc) => (msgAmount a).map fun x => (⟨x, sc⟩ : Prp)) with
+    | none =>
+      -- a message the handler must refuse: no proposal, nothing to build
+      let ok := impl == "err"
+      return ⟨"err", ok, "withdraw:handler-refuses"⟩
+    | some ps =>
+      let v := verdictTx "withdraw" { i0 with props := ps } impl
+      let big := decide (sumAmounts want > maxSat)
+      return ⟨v.model, v.propOk, v.tag ++ s!":beyond-supply={big}:over-int64={want.any (fun p => decide (2 ^ 63 ≤ p.amount))}"⟩
   | "batch", [rate, cid, bridge, store, utxos, batches] => some <| Id.run do
     let some i := parseInp rate cid bridge "-" utxos | return badArgs
     let some st0 := parseStore store | return badArgs
